@@ -61,7 +61,28 @@ def random_cases(n):
         k = rng.below(10)
         if k == 0:   lines.append("hay %s" % hx(h))
         elif k == 1 and len(h) <= 7: lines.append("cmp5 %s %s" % (hx(h), hx(s[:3])))
+        elif k in (2, 3, 4):
+            # aliasing: both views are sub-ranges of the one buffer h (prefix of itself, overlap, adjacent, ...)
+            o1 = rng.below(len(h) + 1); l1 = rng.below(len(h) - o1 + 1)
+            m = rng.below(5)
+            if m == 0:   o2, l2 = o1, rng.below(len(h) - o1 + 1)                     # same start
+            elif m == 1: l2 = rng.below(o1 + l1 + 1); o2 = o1 + l1 - l2              # same end
+            elif m == 2: o2 = o1 + l1; l2 = rng.below(len(h) - o2 + 1)               # adjacent
+            else:        o2 = rng.below(len(h) + 1); l2 = rng.below(min(4, len(h) - o2) + 1)
+            lines.append("alias %s %d %d %d %d" % (hx(h), o1, l1, o2, l2))
+        elif k == 5:
+            o1 = rng.below(len(h) + 1); l1 = rng.below(len(h) - o1 + 1)
+            lines.append("mid %s %d %d" % (hx(h), o1, l1))
         else:        lines.append("pair %s %s" % (hx(h), hx(s)))
+    return lines
+
+
+def null_view_cases():
+    """default-constructed views (data() == nullptr) on either side, against every needle/hay of length <= 2"""
+    small = [[]] + [[a] for a in ALPHA_BYTES] + [[a, b] for a in ALPHA_BYTES for b in ALPHA_BYTES]
+    lines = ["hay ~", "pair ~ ~", "pair ~ -", "pair - ~"]
+    for s in small[1:]:
+        lines += ["pair ~ %s" % hx(s), "pair %s ~" % hx(s)]
     return lines
 
 
@@ -74,16 +95,22 @@ if ck.replay:
 else:
     if ck.thorough():
         maxh, maxs, c5h, c5s, nrand = 5, 3, 3, 3, 20000
+        afull, asmall = 4, 5          # aliasing: all buffers <= afull over ALPHA, buffers of length asmall over {00,'a',FF}
     else:
         maxh, maxs, c5h, c5s, nrand = 4, 3, 2, 2, 1500
-    enum_desc = "enum %s maxhay=%d maxneedle=%d cmp5: hay<=%d needle<=%d" % (ALPHA, maxh, maxs, c5h, c5s)
+        afull, asmall = 3, 4
+    enum_desc = ("enum %s maxhay=%d maxneedle=%d cmp5: hay<=%d needle<=%d; aliasing: every (ordered) pair of sub-ranges of every "
+                 "buffer over %s with |buf|<=%d and over 0061ff with |buf|=%d" % (ALPHA, maxh, maxs, c5h, c5s, ALPHA, afull, asmall))
     rnd = random_cases(nrand)
     parts_lines = []
     for k in range(PARTS):
         ls = []
         if k == 0:
             ls += corpus
+            ls += null_view_cases()
         ls.append("enum %s %d %d %d %d %d %d" % (ALPHA, maxh, maxs, c5h, c5s, k, PARTS))
+        ls.append("aenum %s 0 %d %d %d" % (ALPHA, afull, k, PARTS))
+        ls.append("aenum 0061ff %d %d %d %d" % (asmall, asmall, k, PARTS))
         ls += rnd[k::PARTS]
         parts_lines.append(ls)
 
@@ -97,7 +124,9 @@ exe, log = ck.build_cpp("c18_harness", ["harness/C18/sv_harness.cpp"], flags=FLA
 drv, dlog = ck.ocaml_driver("C18")
 
 found = False
-stats = {"blocks_H": 0, "blocks_P": 0, "blocks_C": 0}
+stats = {"blocks_H": 0, "blocks_P": 0, "blocks_C": 0, "blocks_M": 0, "blocks_A": 0, "blocks_with_nullptr_view": 0,
+         "alias_same_start_diff_len": 0, "alias_same_end_diff_start": 0, "alias_identical": 0, "alias_adjacent": 0,
+         "alias_overlapping": 0, "alias_disjoint": 0}
 hist = {}
 evaluations = 0
 distinct = set()
@@ -128,7 +157,12 @@ def run_verbose(tool, line):
 
 
 def block_line(kind, h, s):
-    return {"H": "hay %s" % h, "P": "pair %s %s" % (h, s), "C": "cmp5 %s %s" % (h, s)}[kind]
+    return {"H": "hay %s" % h, "P": "pair %s %s" % (h, s), "C": "cmp5 %s %s" % (h, s),
+            "M": "mid %s %s" % (h, s.replace(",", " ")), "A": "alias %s %s" % (h, s.replace(",", " "))}[kind]
+
+
+def hexlen(x):
+    return 0 if x in ("-", "~") else len(x) // 2
 
 
 if exe is None:
@@ -177,7 +211,7 @@ else:
             evaluations += ncalls
             stats["blocks_" + kind] += 1
             if kind == "P":
-                key = "hay=%d,needle=%d" % (0 if h == "-" else len(h) // 2, 0 if s == "-" else len(s) // 2)
+                key = "hay=%d,needle=%d" % (hexlen(h), hexlen(s))
                 hist[key] = hist.get(key, 0) + 1
             line = block_line(kind, h, s)
             if fb[1:5] != fa[1:5]:
@@ -185,7 +219,19 @@ else:
                              {"correspondence": "enumeration order"}, no_input=True)
                 break
             hm, hits = fb[5], int(fb[6])
-            if hits > 0 and h != "-" and (kind == "H" or s != "-"):
+            if "~" in (h, s):
+                stats["blocks_with_nullptr_view"] += 1
+            if kind == "A":
+                o1, l1, o2, l2 = [int(x) for x in s.split(",")]
+                if (o1, l1) == (o2, l2): stats["alias_identical"] += 1
+                elif o1 == o2: stats["alias_same_start_diff_len"] += 1
+                elif o1 + l1 == o2 + l2 and l1 and l2: stats["alias_same_end_diff_start"] += 1
+                elif o1 + l1 == o2 or o2 + l2 == o1: stats["alias_adjacent"] += 1
+                elif max(o1, o2) < min(o1 + l1, o2 + l2): stats["alias_overlapping"] += 1
+                else: stats["alias_disjoint"] += 1
+                if hits > 0 and l1 and l2:
+                    distinct.add((kind, h, s))
+            elif hits > 0 and hexlen(h) > 0 and (kind in ("H", "M") or hexlen(s) > 0):
                 distinct.add((kind, h, s))
             if ht != hs:
                 # the property itself: tlx differs from std::string_view on identical arguments
@@ -210,7 +256,7 @@ else:
                                   "first_differing_calls": diff[:3], "block": line}, no_input=True)
     # samples: three blocks written out call by call
     if not ck.replay:
-        for line in ([corpus[0]] if corpus else []) + ["pair 6100ff 00ff", parts_lines[0][-1]]:
+        for line in ([corpus[0]] if corpus else []) + ["pair 6100ff 00ff", "alias 61620061 0 3 0 2", "pair ~ 61", parts_lines[0][-1]]:
             ci = run_verbose(exe, line)
             ks = sorted(ci)
             pick = ks[:3] + ks[len(ks) // 2: len(ks) // 2 + 3] + ks[-2:]
@@ -233,7 +279,12 @@ ck.finish({
             "Blocks: H = unary queries of one haystack (at/[]/front/back/remove_prefix/suffix/to_string/substr/copy/char overloads), "
             "P = all binary queries of (hay, needle) (compare, 6 relational operators x 5 operand type combinations, starts/ends_with, "
             "the six find functions for every pos in {0..|hay|+2, npos} and their (ptr,n)/C-string overloads, compare(pos1,n1,x)), "
-            "C = compare(pos1,n1,x,pos2,n2) for all four arguments. Complete enumeration: " + enum_desc +
+            "C = compare(pos1,n1,x,pos2,n2) for all four arguments, "
+            "A = the binary queries (compare, == != < > <= >= also against the C string at the needle's address, starts/ends_with, six finds "
+            "for every pos, find/rfind(const char*), compare(pos1,n1,x), compare(pos1,n1,x,pos2,n2)) with BOTH views being sub-ranges of one "
+            "heap buffer (same start/different length, same end, identical, adjacent, overlapping, disjoint: counted in input_distribution), "
+            "M = the unary queries on a view in the middle of a larger buffer (reads outside the view hit foreign bytes, not redzones); "
+            "'~' operands are default-constructed views (data() == nullptr). Complete enumeration: " + enum_desc +
             "; then the corpus of defect witnesses and VERIF_SEED-dependent random strings of length 5..12 (needles cut out of the haystack). "
             "distinct_nontrivial = number of distinct blocks (kind, hay, needle) with non-empty operands in which at least one find/rfind "
             "with a non-empty needle found an occurrence, i.e. the needle (or a probed character) really occurs in the haystack "
@@ -245,7 +296,7 @@ ck.finish({
     "size_type is 64 bit, views are shorter than 2^64-1 bytes (hypothesis of every theorem); plain char is signed (only used to explain the shipped operator<)",
     "std::search / std::find_first_of / std::equal / std::lexicographical_compare / char_traits::compare,find are modelled by their reference loops",
     "only the sign of compare() is compared (the standard fixes nothing else); exceptions are compared by kind (std::out_of_range)",
-    "calls whose behaviour std::string_view leaves undefined are not made: operator[] / front / back out of range, remove_prefix/suffix(n > size())",
+    "calls whose behaviour std::string_view leaves undefined are not made: operator[] / front / back out of range, remove_prefix/suffix(n > size()), copy() into a destination overlapping the view",
     "throwing calls of compare(pos1,n1,...) are enumerated with n1 in {0, npos} only (the count is irrelevant once pos1 > size())",
     "extraction: ExtrOcamlBasic only; N/Z/list stay Coq inductives",
 ])
